@@ -3,6 +3,7 @@ package main
 import (
 	"fmt"
 	"math/rand"
+	"strings"
 )
 
 // sem-* streams: safe generated programs, executed under Bash (implementation) and by the reference
@@ -80,4 +81,49 @@ func init() {
 		g.meta["typed_mutants_valid"] = acc
 		g.meta["typed_mutants_invalid"] = rej
 	}
+}
+
+// sem-batch (C05): programs of all fragments with small integer literals (32-bit arithmetic); the case kind batrun
+// makes the driver run the Batch script under the cmd.exe model; the implementation side is the Bash run.
+func init() {
+	runners["batrun"] = runRun
+	streams["sem-batch"] = func(r *rand.Rand, n int, g *genOut) {
+		feats := map[string]int{}
+		// targeted programs first: label allocation, multi-digit indices and lengths, helper corner cases
+		for _, t := range batchTargeted {
+			f := progFields("main.tsh", map[string]string{"main.tsh": t.src}, false)
+			g.addCase("emit", f...)
+			id := fmt.Sprintf("%d#%s", g.n, t.tag)
+			g.n++
+			fmt.Fprintf(g.cases, "batrun %s %s\n", id, strings.Join(f, " "))
+			feats["targeted"]++
+		}
+		for i := 0; i < n; i++ {
+			o := GenOpts{Funcs: r.Intn(3) != 0, Effects: r.Intn(3) == 0, Slices: r.Intn(2) == 0, Strings: r.Intn(2) == 0, Safe: true, MaxDepth: 2 + r.Intn(4), MaxStmts: 2 + r.Intn(5)}
+			src, fs := GenProgram(r, o)
+			for k, v := range fs {
+				feats[k] += v
+			}
+			f := progFields("main.tsh", map[string]string{"main.tsh": src}, false)
+			g.addCase("emit", f...)
+			g.addCase("batrun", f...)
+		}
+		g.meta["sem_batch_features"] = feats
+	}
+}
+
+var batchTargeted = []struct{ tag, src string }{
+	{"two-digit-slice", "p := []int{1, 2, 3, 4, 5, 6, 7, 8, 9, 10, 11, 12}\nvar v []int\nc := copy(v, p)\nprint(c, len(v), v[11])\nvar s []int\ns[10] = 1\nprint(len(s), s[5], s[10])\n"},
+	{"assign-inside-slice", "s := []int{1, 2, 3}\ns[0] = 5\nprint(len(s), s[0], s[2])\ns[2] = 7\nprint(len(s), s[2])\n"},
+	{"print-blanks", "print(\"\", \"\")\nprint(\" \")\nprint(\"\")\nprint(\"a\", \"\", \"b\")\n"},
+	{"sequential-loops", "t := 0\nfor i := 0; i < 3; i++ {\n\tt = t + i\n}\nfor j := 0; j < 4; j++ {\n\tif j == 2 {\n\t\tcontinue\n\t}\n\tt = t + 10\n}\nfor t < 100 {\n\tt = t * 2\n\tif t > 60 {\n\t\tbreak\n\t}\n}\nprint(t)\n"},
+	{"nested-loops", "t := 0\nfor i := 0; i < 3; i++ {\n\tfor j := 0; j < 3; j++ {\n\t\tif j == 1 {\n\t\t\tcontinue\n\t\t}\n\t\tfor k := 0; k < 2; k++ {\n\t\t\tif k == 1 {\n\t\t\t\tbreak\n\t\t\t}\n\t\t\tt = t + 1\n\t\t}\n\t}\n\tif i == 1 {\n\t\tcontinue\n\t}\n\tt = t + 100\n}\nprint(t)\n"},
+	{"loops-in-functions", "func inner(n int) int {\n\tr := 0\n\tfor r < n {\n\t\tr = r + 1\n\t}\n\treturn r\n}\nfunc outer(n int) int {\n\tacc := 0\n\tfor i := 1; i <= n; i++ {\n\t\tacc = acc + inner(i)\n\t\tprint(i, acc)\n\t}\n\treturn acc\n}\nprint(\"done\", outer(3))\n"},
+	{"two-lengths", "a := []int{1, 2, 3}\nb := []int{1, 2}\nif len(a) > len(b) {\n\tprint(\"a is longer\")\n} else {\n\tprint(\"a is not longer\")\n}\nprint(len(a) - len(b))\nprint(len(a), len(b))\n"},
+	{"multi-digit-compare", "x := 10\ny := 9\nprint(x > y, x < y, 100 >= 99, 2 < 12, -5 < 3)\nif x > y {\n\tprint(\"gt\")\n} else if x == y {\n\tprint(\"eq\")\n} else {\n\tprint(\"lt\")\n}\n"},
+	{"arith-32", "a := 46341\nb := a * 46340\nprint(b, b / 7, b % 7, 0 - b, (0 - b) / 7, (0 - b) % 7)\n"},
+	{"if-chains", "for i := 0; i < 5; i++ {\n\tif i == 0 {\n\t\tprint(\"zero\")\n\t} else if i == 1 {\n\t\tprint(\"one\")\n\t} else if i == 2 {\n\t\tif i > 1 {\n\t\t\tprint(\"two\")\n\t\t}\n\t} else {\n\t\tprint(\"many\")\n\t}\n}\n"},
+	{"strings", "s := \"hello world\"\nprint(len(s), s[0:5], s[6], s[6:])\nt := s + \"!\"\nprint(t, t == s, t != s)\n"},
+	{"panic-in-function", "func f() {\n\tpanic(\"boom\")\n}\nprint(\"before\")\nf()\nprint(\"after\")\n"},
+	{"panic-top-level", "print(\"before\")\npanic(\"boom\")\nprint(\"after\")\n"},
 }
